@@ -140,16 +140,57 @@ def materialise(subject, cfg, pname, seed, dtype=torch.float64, train=False):
         torch.manual_seed(1000 + seed)
         m = subject.build(cfg)
     pat = pattern_for(pname, seed)
-    if pat[0] == "pat" and subject.kind in ("coupling-spline", "ar-spline", "coupling", "ar") and cfg.get("tb") and float(cfg["tb"]) > 2.5:
-        # keep the conditioner's outputs moderate when its inputs reach the (large) tail bound: with O(1) weights
-        # and inputs of 30-40 the softmax logits differ by hundreds and bin masses underflow to exactly 0
-        pat = (pat[0], pat[1], pat[2] * 2.5 / float(cfg["tb"]))
     fill(m, pat)
     subject.post(m, cfg, pat)
+    if pat[0] == "pat" and subject.kind in ("coupling-spline", "ar-spline", "coupling", "ar"):
+        cap_conditioner(subject, cfg, m)
     if dtype == torch.float64:
         m = m.double()
     m.train(train)
     return m
+
+
+def cap_conditioner(subject, cfg, m, cap=4.0):
+    """Bounded parameter box for conditioner-based subjects: rescale the conditioner's last layer so that its outputs
+    (softmax logits, unconstrained derivatives/scales) stay within [-cap, cap] on the whole input alphabet (incl. the far
+    tails). With O(1) weights in every layer the logits otherwise differ by hundreds, bin masses underflow to exactly 0
+    and neither direction is a bijection any more -- outside the 'moderate magnitude' scope of the properties."""
+    net = getattr(m, "transform_net", None) or getattr(m, "autoregressive_net", None)
+    if net is None:
+        return
+    last = getattr(net, "final_layer", None)
+    if last is None and hasattr(net, "net"):
+        last = getattr(net.net, "_output_layer", None)
+    if last is None:
+        return
+    lo, hi = subject.domain(cfg)
+    if lo is None:
+        L = 1.4 * float(cfg["tb"]) if cfg.get("tb") else 6.0
+        vals = [-L, -1.0, -0.3, 0.4, 1.0, L]
+    else:
+        vals = [lo, lo + 0.25 * (hi - lo), lo + 0.6 * (hi - lo), hi]
+    shape = subject.shape(cfg)
+    rows = []
+    for i, v in enumerate(vals):
+        r = torch.full(shape, float(v))
+        flat = r.reshape(-1)
+        flat[i % flat.numel()] = float(vals[(i + 2) % len(vals)])
+        rows.append(r)
+    x = torch.stack(rows)
+    if hasattr(m, "identity_features"):
+        x = x[:, m.identity_features, ...]
+    cs = subject.ctx_shape(cfg)
+    ctx = None if cs is None else torch.stack([pat_tensor(cs, 5 + k % 3, 0.7, dtype=torch.float32) for k in range(len(rows))])
+    was = net.training
+    net.eval()
+    with torch.no_grad():
+        out = net(x, ctx) if ctx is not None else net(x)
+        M = float(out.abs().max())
+        if M > cap and M == M:
+            last.weight.mul_(cap / M)
+            if last.bias is not None:
+                last.bias.mul_(cap / M)
+    net.train(was)
 
 
 # ----------------------------------------------------------------------------- conditioners
